@@ -123,7 +123,7 @@ func c11Gen(n int, kinds []*c11Kind, memo map[int][]*c11Node) []*c11Node {
 	return out
 }
 
-var c11Leaves = []string{"1", "'a'", "%v", "true", "name", "2.5", "Patient", "$this", "{}", "1 'mg'", "@2020-01-01", "exists()"}
+var c11Leaves = []string{"1", "'a'", "%v", "true", "name", "2.5", "Patient", "$this", "{}", "1 'mg'", "@2020-01-01", "exists()", "2147483648", "0"}
 
 // render returns the token list of the tree. full=true parenthesises every
 // non-leaf sub-expression; full=false uses the fewest parentheses the
@@ -345,75 +345,85 @@ func c11Build(tier string) *c11Trees {
 func init() {
 	decorations := []struct{ name, s string }{{"space", " "}, {"newline", "\n"}, {"tab", "\t"}, {"block-comment", "/* c */"}, {"line-comment", "// c\n"}, {"nothing", ""}}
 	core.Register(&core.Check{
-		ID: "C11",
-		Rule: "all expression trees with <=3 operator nodes over 22 binary operator tokens (all 13 precedence levels), polarity, invocation, indexer, is/as, function-argument and parenthesised positions (quick; thorough adds all trees with 4 operator nodes over one representative per level); each tree is rendered minimally parenthesised (harness's own precedence table), fully parenthesised, and fully parenthesised including the leaf terms: both compile or both fail, identical AST dumps, identical evaluation on 2 inputs; all trees with <=2 nodes x 6 token-gap decorations applied to all gaps and to each single gap; x 52 trailing tokens; Expression.String(); an operand-order table evaluated against hand-written results; non-trivial = distinct (tree, rendering, outcome)",
+		ID:          "C11",
+		Rule:        "all expression trees with <=3 operator nodes over 22 binary operator tokens (all 13 precedence levels), polarity, invocation, indexer, is/as, function-argument and parenthesised positions (quick; thorough adds all trees with 4 operator nodes over one representative per level); leaves rotate through 14 leaf terms (incl. the out-of-range number 2147483648), trees with <=2 nodes with every rotation; each tree is rendered minimally parenthesised (harness's own precedence table), fully parenthesised, and fully parenthesised including the leaf terms: both compile or both fail, identical AST dumps, identical evaluation on 2 inputs; all trees with <=2 nodes x 6 token-gap decorations applied to all gaps and to each single gap; x 52 trailing tokens; Expression.String(); an operand-order table evaluated against hand-written results; non-trivial = distinct (tree, rendering, outcome)",
 		Assumptions: []string{"the precedence table (13 levels, left associative) in checks/c11.go was transcribed from the FHIRPath N1 grammar", "AST equality is judged on the reflective dump of the private expression tree including implementation function names"},
 		Subs: func(tier string) []core.Sub {
 			tr := c11Build(tier)
 			return []core.Sub{
 				{Name: "renderings", N: len(tr.all), Note: fmt.Sprintf("%d trees; minimal vs full parenthesisation", len(tr.all)), Run: func(i int, r *core.Rec) {
 					t := tr.all[i]
-					a, b := 0, 0
-					minT, fullT := c11Render(t, false, &a), c11Render(t, true, &b)
-					sp := func(int) string { return " " }
-					minS, fullS := c11Join(minT, sp), c11Join(fullT, sp)
-					m, f := c11Compile(r, minS, true), c11Compile(r, fullS, true)
-					r.State("levels|" + c11Levels(t))
-					r.Outcome(fmt.Sprintf("%v|%v", m.ok, f.ok))
-					r.Nontrivial(minS, fmt.Sprint(m.ok), m.ast)
-					if r.WantSample() {
-						r.Sample(core.W{"tree": c11Shape(t), "minimal": minS, "full": fullS, "compiles": m.ok})
+					// trees with <=2 operator nodes are rendered with every rotation of the leaf list, larger ones with the first
+					offsets := 1
+					if i < len(tr.small) {
+						offsets = len(c11Leaves)
 					}
-					w := core.W{"tree": c11Shape(t), "minimal": minS, "full": fullS, "minimal_outcome": m.desc, "full_outcome": f.desc}
-					if m.pan != nil || f.pan != nil {
-						p := m.pan
-						if p == nil {
-							p = f.pan
+					one := func(off int) {
+						a, b := off, off
+						minT, fullT := c11Render(t, false, &a), c11Render(t, true, &b)
+						sp := func(int) string { return " " }
+						minS, fullS := c11Join(minT, sp), c11Join(fullT, sp)
+						m, f := c11Compile(r, minS, true), c11Compile(r, fullS, true)
+						r.State("levels|" + c11Levels(t))
+						r.Outcome(fmt.Sprintf("%v|%v", m.ok, f.ok))
+						r.Nontrivial(minS, fmt.Sprint(m.ok), m.ast)
+						if r.WantSample() {
+							r.Sample(core.W{"tree": c11Shape(t), "minimal": minS, "full": fullS, "compiles": m.ok})
 						}
-						r.Fail("renderings|"+p.Key(), w)
-						return
+						w := core.W{"tree": c11Shape(t), "minimal": minS, "full": fullS, "minimal_outcome": m.desc, "full_outcome": f.desc}
+						if m.pan != nil || f.pan != nil {
+							p := m.pan
+							if p == nil {
+								p = f.pan
+							}
+							r.Fail("renderings|"+p.Key(), w)
+							return
+						}
+						if m.ok != f.ok {
+							r.Fail(fmt.Sprintf("renderings|only-one-compiles|root=%s|minimal=%v", t.k.name, m.ok), w)
+							return
+						}
+						if !m.ok {
+							return
+						}
+						if m.ast != f.ast {
+							w["minimal_ast"], w["full_ast"] = core.Short(m.ast, 600), core.Short(f.ast, 600)
+							r.Fail("renderings|ast-differs|levels="+c11Levels(t), w)
+						}
+						if strings.Join(m.evs, "\x00") != strings.Join(f.evs, "\x00") {
+							w["minimal_eval"], w["full_eval"] = m.evs, f.evs
+							r.Fail("renderings|evaluation-differs|levels="+c11Levels(t), w)
+						}
+						// third rendering: the leaves (terms) parenthesised as well
+						c := off
+						c11WrapLeaves = true
+						leafS := c11Join(c11Render(t, true, &c), sp)
+						c11WrapLeaves = false
+						l := c11Compile(r, leafS, true)
+						w["full_with_leaves"], w["full_with_leaves_outcome"] = leafS, l.desc
+						if l.pan != nil {
+							r.Fail("renderings|"+l.pan.Key(), w)
+						} else if l.ok != m.ok {
+							r.Fail(fmt.Sprintf("renderings|only-one-compiles|root=%s|leaves-parenthesised=%v", t.k.name, l.ok), w)
+						} else if strings.Join(m.evs, "\x00") != strings.Join(l.evs, "\x00") {
+							w["minimal_eval"], w["full_with_leaves_eval"] = m.evs, l.evs
+							r.Fail("renderings|evaluation-differs-with-parenthesised-leaves|levels="+c11Levels(t), w)
+						}
+						if m.str != minS || f.str != fullS {
+							r.Fail("string()-is-not-the-source", core.W{"source": minS, "String()": m.str})
+						}
+						// patch.Compile accepts exactly the same sources
+						var perr error
+						pi := core.Try(func() { _, perr = patch.Compile(minS) })
+						r.Eval()
+						if pi != nil {
+							r.Fail("patch.Compile|"+pi.Key(), w)
+						} else if perr != nil {
+							r.Fail("patch.Compile-rejects-what-Compile-accepts|root="+t.k.name, core.W{"src": minS, "err": perr.Error()})
+						}
 					}
-					if m.ok != f.ok {
-						r.Fail(fmt.Sprintf("renderings|only-one-compiles|root=%s|minimal=%v", t.k.name, m.ok), w)
-						return
-					}
-					if !m.ok {
-						return
-					}
-					if m.ast != f.ast {
-						w["minimal_ast"], w["full_ast"] = core.Short(m.ast, 600), core.Short(f.ast, 600)
-						r.Fail("renderings|ast-differs|levels="+c11Levels(t), w)
-					}
-					if strings.Join(m.evs, "\x00") != strings.Join(f.evs, "\x00") {
-						w["minimal_eval"], w["full_eval"] = m.evs, f.evs
-						r.Fail("renderings|evaluation-differs|levels="+c11Levels(t), w)
-					}
-					// third rendering: the leaves (terms) parenthesised as well
-					c := 0
-					c11WrapLeaves = true
-					leafS := c11Join(c11Render(t, true, &c), sp)
-					c11WrapLeaves = false
-					l := c11Compile(r, leafS, true)
-					w["full_with_leaves"], w["full_with_leaves_outcome"] = leafS, l.desc
-					if l.pan != nil {
-						r.Fail("renderings|"+l.pan.Key(), w)
-					} else if l.ok != m.ok {
-						r.Fail(fmt.Sprintf("renderings|only-one-compiles|root=%s|leaves-parenthesised=%v", t.k.name, l.ok), w)
-					} else if strings.Join(m.evs, "\x00") != strings.Join(l.evs, "\x00") {
-						w["minimal_eval"], w["full_with_leaves_eval"] = m.evs, l.evs
-						r.Fail("renderings|evaluation-differs-with-parenthesised-leaves|levels="+c11Levels(t), w)
-					}
-					if m.str != minS || f.str != fullS {
-						r.Fail("string()-is-not-the-source", core.W{"source": minS, "String()": m.str})
-					}
-					// patch.Compile accepts exactly the same sources
-					var perr error
-					pi := core.Try(func() { _, perr = patch.Compile(minS) })
-					r.Eval()
-					if pi != nil {
-						r.Fail("patch.Compile|"+pi.Key(), w)
-					} else if perr != nil {
-						r.Fail("patch.Compile-rejects-what-Compile-accepts|root="+t.k.name, core.W{"src": minS, "err": perr.Error()})
+					for off := 0; off < offsets; off++ {
+						one(off)
 					}
 				}},
 				{Name: "decorations", N: len(tr.small), Note: "trees with <=2 operator nodes x 6 decorations x (all gaps | each single gap)", Run: func(i int, r *core.Rec) {
